@@ -31,6 +31,13 @@ impl<W: Dev> Dev for MaybeEncrypted<W> {
     open spec fn g_pos(&self) -> int { match self { MaybeEncrypted::Unencrypted(w) => w.g_pos(), MaybeEncrypted::Encrypted(_) => 0 } }
     open spec fn g_fault(&self) -> bool { match self { MaybeEncrypted::Unencrypted(w) => w.g_fault(), MaybeEncrypted::Encrypted(_) => false } }
     open spec fn g_ready(&self) -> bool { match self { MaybeEncrypted::Unencrypted(w) => w.g_ready(), MaybeEncrypted::Encrypted(_) => true } }
+    // the sink below is a usable device, or a ZipCrypto buffer (with its 12-byte header slot) over one
+    open spec fn g_inv(&self) -> bool {
+        match self {
+            MaybeEncrypted::Unencrypted(s) => dev_ok(s),
+            MaybeEncrypted::Encrypted(z) => z.buffer@.len() >= 12 && dev_ok(&z.writer),
+        }
+    }
 }
 //@impl src/write.rs | impl<W: Write> Write for MaybeEncrypted<W>
 impl<W: Write> Write for MaybeEncrypted<W> {
